@@ -507,6 +507,20 @@ def run_check(hname, tier, jobs=None, budget_s=None):
             import shutil
             shutil.rmtree(outdir, ignore_errors=True)
 
+    # ---- differential self-test of the pandas model (concrete cells vs real pandas), a few seconds ----------------
+    selftest = {"status": "not run"}
+    try:
+        r = subprocess.run([sys.executable, "-m", "selftest.model_selftest", str(seed), "25" if tier == "quick" else "80"],
+                           cwd=VERIF, capture_output=True, text=True, timeout=300)
+        line = next((l for l in r.stdout.splitlines() if l.startswith("model self-test:")), "")
+        selftest = {"status": "ok" if r.returncode == 0 else "DISAGREEMENTS", "summary": line,
+                    "details": [l for l in r.stdout.splitlines() if "DISAGREE" in l][:5]}
+        if r.returncode != 0:
+            print(f"INCONCLUSIVE: property={pid} the pandas model disagrees with real pandas in its self-test: {line}",
+                  file=sys.stderr)
+    except Exception as e:        # noqa: BLE001
+        selftest = {"status": "error", "summary": repr(e)}
+
     decided = total.discharged + total.refuted
     wall = time.time() - t0
     files = sorted({f for f, _ in agg["functions"]})
@@ -534,6 +548,7 @@ def run_check(hname, tier, jobs=None, budget_s=None):
             "paths_aborted_infeasible_assumption": total.aborted, "paths_inconclusive_unsupported": total.unsupported,
             "paths_raised": total.raised, "paths_using_tie_order_choice": agg["tie_paths"],
             "cvc5_cross_audit": agg.get("audit", "not run in the quick tier"),
+            "model_selftest": selftest,
             "traces_validated_against_impl": validated,
             "validation_rule": "witness inputs (solver models with distinct positive times where possible) of paths whose "
                                "obligations were all discharged, replayed through the real code with real pandas; all "
